@@ -91,3 +91,44 @@ func VerifC11Retained() {
 	}
 	vCover("c11-retained-end")
 }
+
+// VerifC11Clear: two retained publishes, then a retained publish with an empty payload
+// (the clearing path), then a subscription - names long enough for a topic and its child.
+func VerifC11Clear() {
+	L := vParam("L", 3)
+	m := NewMemoryBackend()
+	pub, _ := mkClient(m, "p", true)
+	var rt []string
+	for i := 0; i < 2; i++ {
+		tp := symName("topic", L)
+		vAssert(m.Publish(pub, &packet.Message{Topic: tp, Payload: []byte{byte(i + 1)}, Retain: true}, nil) == nil, "retained publish")
+		found := false
+		for _, x := range rt {
+			if x == tp {
+				found = true
+			}
+		}
+		if !found {
+			rt = append(rt, tp)
+		}
+	}
+	victim := symName("victim", L)
+	vAssert(m.Publish(pub, &packet.Message{Topic: victim, Payload: nil, Retain: true}, nil) == nil, "clearing publish")
+	var left []string
+	for _, x := range rt {
+		if x != victim {
+			left = append(left, x)
+		}
+	}
+	sub, ss := mkClient(m, "s", true)
+	f := symFilter("filter", L)
+	vAssert(m.Subscribe(sub, []packet.Subscription{{Topic: f, QOS: 0}}, nil) == nil, "Subscribe")
+	want := 0
+	for _, x := range left {
+		if topic.VerifRefMatch(f, x) {
+			want++
+		}
+	}
+	vAssert(queued(ss) == want, "exactly the retained messages that were not cleared and match are replayed")
+	vCover("c11-clear-end")
+}
